@@ -721,7 +721,12 @@ def _get_rotation_and_strain(
     if np.all(slip_invariants == 0):
         return np.zeros((3, 3)), 0.0
     if phase == MineralPhase.olivine:
-        slip_indices = np.argsort(np.abs(slip_invariants / crss))
+        slip_activities = np.abs(slip_invariants / crss)
+        # No slip is possible either if none of the (finite CRSS) slip systems can be
+        # activated, e.g. for C-type olivine aligned with the axes of a simple shear.
+        if np.all(slip_activities == 0):
+            return np.zeros((3, 3)), 0.0
+        slip_indices = np.argsort(slip_activities)
         slip_rates = _get_slip_rates_olivine(
             slip_invariants,
             slip_indices,
